@@ -4,14 +4,10 @@ package main
 
 import (
 	"bytes"
-	"context"
 	"encoding/hex"
 	"fmt"
 
 	"github.com/superfly/macaroon"
-	"github.com/superfly/macaroon/bundle"
-	"github.com/superfly/macaroon/flyio"
-	"github.com/superfly/macaroon/resset"
 
 	"verifharness/internal/coqw"
 	"verifharness/internal/cs"
@@ -382,8 +378,33 @@ func genC01(c *ctx) {
 		for k := 1 + b.r.Intn(3); k > 0; k-- {
 			class += b.attack(target, held) + "+"
 		}
-		ob := b.do(sym.Op{Kind: "OVerify", S: target, K: keyRoot, Slots: f.discharges, Tr: f.trust()})
+		// discharges as the attacker presents them: possibly with forged copies of the genuine ones (same nonce, an extra
+		// caveat, tail kept or junk) placed in front -- a rejected candidate must leave no trace in the result
+		present := f.discharges
+		nForged := 0
+		if len(f.discharges) > 0 && b.r.P(1, 2) {
+			var forged []uint64
+			for _, g := range f.discharges {
+				fd := b.slot()
+				b.do(sym.Op{Kind: "ODecodeRaw", Dst: fd, Src: g})
+				b.do(sym.Op{Kind: "OAppendData", S: fd, Ds: []sym.D{sym.DOf(rng.Pick(b.r, append(append([]uint64{}, dataIDs...), attIDs...)))}})
+				if b.r.Bool() {
+					b.do(sym.Op{Kind: "OSetTail", S: fd, X: &sym.TailX{Kind: "XLit", B: b.r.Bytes(32)}})
+				}
+				forged = append(forged, fd)
+			}
+			nForged = len(forged)
+			present = append(forged, f.discharges...)
+			class += "forged-discharge-first+"
+		}
+		ob := b.do(sym.Op{Kind: "OVerify", S: target, K: keyRoot, Slots: present, Tr: f.trust()})
 		oracle := ""
+		if nForged > 0 {
+			ref := b.do(sym.Op{Kind: "OVerify", S: target, K: keyRoot, Slots: f.discharges, Tr: f.trust()})
+			if accepted(ref) && fmt.Sprint(ref) != fmt.Sprint(ob) {
+				oracle = fmt.Sprintf("rejected forged discharges presented in front change the verification result: %v instead of %v", ob, ref)
+			}
+		}
 		if accepted(ob) {
 			t := snapOf(b.env.Slots[target])
 			ok := false
@@ -513,45 +534,6 @@ func genC02(c *ctx) {
 	}
 }
 
-// bundleAttenuate3P: the bundle-level half of "an added third-party caveat makes the token demand its discharge":
-// Verify, then Attenuate with a third-party caveat, then Validate WITHOUT verifying again must refuse; and after a fresh
-// Verify without the new discharge the token fails.  Implementation-side oracle (returns "" when fine).
-func bundleAttenuate3P(r *rng.R) string {
-	key := macaroon.NewSigningKey()
-	ka := macaroon.NewEncryptionKey()
-	m, _ := macaroon.New([]byte("k"), "https://perm.test", key)
-	m.Add(&flyio.Organization{ID: 1, Mask: resset.ActionAll})
-	hdr, _ := m.String()
-	b, _ := bundle.ParseBundle("https://perm.test", hdr)
-	if _, err := b.Verify(context.Background(), bundle.WithKey([]byte("k"), key, nil)); err != nil {
-		return "setup: " + err.Error()
-	}
-	one := uint64(1)
-	acc := &flyio.Access{OrgID: &one, Action: resset.ActionRead}
-	if b.Validate(acc) != nil {
-		return "setup: verified token does not clear"
-	}
-	c3, _ := macaroon.NewCaveat3P(ka, "https://tp.test")
-	extra := []macaroon.Caveat{c3}
-	if r.Bool() {
-		rd := resset.ActionRead
-		extra = append([]macaroon.Caveat{&rd}, extra...)
-	}
-	if err := b.Attenuate(extra...); err != nil {
-		return "setup: attenuate: " + err.Error()
-	}
-	if b.Validate(acc) == nil {
-		return "bundle clears a request right after Attenuate added a third-party caveat (no discharge presented, not re-verified)"
-	}
-	if len(b.UndischargedTicketsForThirdParty("https://tp.test")) != 1 {
-		return "attenuated bundle does not report the new undischarged ticket"
-	}
-	if _, err := b.Verify(context.Background(), bundle.WithKey([]byte("k"), key, nil)); err == nil {
-		return "attenuated token verifies without the discharge for the added third-party caveat"
-	}
-	return ""
-}
-
 // ---------------------------------------------------------------- C04: third-party caveats and their discharges
 func genC04(c *ctx) {
 	st := c.set.Stream("sym-3p", "Corr.RunS", "run", 150)
@@ -574,6 +556,7 @@ func genC04(c *ctx) {
 		idx3 := b.threePIdx(last)
 		var present []uint64
 		class := ""
+		oracle04 := ""
 		for k := b.r.Intn(5); k > 0; k-- {
 			switch b.r.Intn(9) {
 			case 0:
@@ -622,15 +605,38 @@ func genC04(c *ctx) {
 				class += "genuine+"
 			}
 		}
+		if b.r.P(1, 4) {
+			// the holder attenuates with an own third-party caveat that re-uses the ticket of a genuine one (other location,
+			// verifier key sealing a key he knows -- the empty key is what Add seals into a hand-built caveat) and presents a
+			// token minted for that ticket under his key: the genuine caveat is still undischarged
+			t := b.slot()
+			b.do(sym.Op{Kind: "ODecodeRaw", Dst: t, Src: last})
+			j := rng.Pick(b.r, idx3)
+			k := rng.Pick(b.r, []uint64{keyEvil, sym.KeyEmpty})
+			b.do(sym.Op{Kind: "OAdd3PWithTicket", S: t, Loc: uint64(4 + b.r.Intn(2)), K: k, Src: last, J: j})
+			d := b.slot()
+			b.do(sym.Op{Kind: "OMintForTicket", Dst: d, Src: last, J: j, K: k, Loc: 1, Proof: b.r.Bool()})
+			b.do(sym.Op{Kind: "OEncode", S: d})
+			var others []uint64 // genuine discharges of the other caveats
+			for q, g := range pool {
+				if idx3[q] != j {
+					others = append(others, g)
+				}
+			}
+			ob := b.do(sym.Op{Kind: "OVerify", S: t, K: keyRoot, Slots: append([]uint64{d}, others...), Tr: f.trust()})
+			if accepted(ob) && oracle04 == "" {
+				oracle04 = "third-party caveat accepted with a token minted under a key the caveat does not embed (ticket re-used in a second caveat)"
+			}
+			b.do(sym.Op{Kind: "OVerify", S: t, K: keyRoot, Slots: append(append([]uint64{d}, pool...), d), Tr: f.trust()})
+			class += "reused-ticket+"
+		}
 		// presentation orders: as built, with the genuine ones first, and last
 		b.do(sym.Op{Kind: "OVerify", S: last, K: keyRoot, Slots: present, Tr: f.trust()})
 		b.do(sym.Op{Kind: "OVerify", S: last, K: keyRoot, Slots: append(append([]uint64{}, pool...), present...), Tr: f.trust()})
 		o3 := b.do(sym.Op{Kind: "OVerify", S: last, K: keyRoot, Slots: append(append([]uint64{}, present...), pool...), Tr: f.trust()})
 		b.do(sym.Op{Kind: "OVerify", S: last, K: keyRoot, Slots: nil, Tr: f.trust()})
-		oracle := ""
-		// only non-verifying extras were added around the genuine discharges: the verdict must be accept
 		_ = o3
-		b.emit(st, "3p/"+class, true, oracle)
+		b.emit(st, "3p/"+class, true, oracle04)
 	}
 	// "sealing the same content twice never yields the same bytes": no AEAD nonce may repeat across the seals of this run
 	c.set.Notes["seals"] = map[string]any{"distinct_sealed_values": sym.Seals, "violation": sym.DupSeal}
@@ -812,9 +818,19 @@ func genC07(c *ctx) {
 		case 4: // same but on an unrelated token minted for the attacker by the issuer (holder of a legit token)
 			t := b.slot()
 			b.do(sym.Op{Kind: "OMint", S: t, K: keyRoot, Kid: []byte{'a'}, Loc: 0, V: 1})
-			b.do(sym.Op{Kind: "OAdd3PWithTicket", S: t, Loc: 1, K: keyEvil2, Src: root, J: 1})
+			// the key he seals: one of his own, or the empty key (what Add seals into a hand-built Caveat3P{Location, Ticket});
+			// the ticket: the trusted party's, or one that no trusted key opens (sealed under his own key)
+			ek := rng.Pick(r, []uint64{keyEvil2, sym.KeyEmpty, sym.KeyEmpty})
+			tsrc, tj := root, uint64(1)
+			if r.Bool() {
+				own := b.slot()
+				b.do(sym.Op{Kind: "OMint", S: own, K: keyEvil, Kid: []byte{'e'}, Loc: 0, V: 1})
+				b.do(sym.Op{Kind: "OAdd", S: own, Adds: []sym.ACav{{Is3P: true, EncKey: keyEvil, Loc: 1}}})
+				tsrc, tj = own, 0
+			}
+			b.do(sym.Op{Kind: "OAdd3PWithTicket", S: t, Loc: uint64(1 + r.Intn(2)), K: ek, Src: tsrc, J: tj})
 			d := b.slot()
-			b.do(sym.Op{Kind: "OMintForTicket", Dst: d, Src: root, J: 1, K: keyEvil2, Loc: 1, Proof: true})
+			b.do(sym.Op{Kind: "OMintForTicket", Dst: d, Src: tsrc, J: tj, K: ek, Loc: uint64(1 + r.Intn(2)), Proof: true})
 			b.do(sym.Op{Kind: "OAdd", S: d, Adds: []sym.ACav{{D: sym.DOf(4)}}})
 			b.do(sym.Op{Kind: "OEncode", S: d})
 			tok = t
